@@ -198,7 +198,14 @@ class Builder:
     def build_map(self, m, ft):
         cls = resolve(ft.elem)
         out = collections.defaultdict(cls) if ft.default_factory else {}
+        ktag = getattr(getattr(ft, 'key', None), 'tag', None)
         for k, rec in m.items():
+            if ktag is not None:
+                # keys declared Opaque(tag): the same token objects that stand for values of that type elsewhere
+                tk = (str(ktag), int(k))
+                if tk not in self.tokens:
+                    self.tokens[tk] = OpaqueToken(*tk)
+                k = self.tokens[tk]
             o = cls.__new__(cls)
             for n, v in rec.items():
                 if n.endswith('?'):
@@ -212,6 +219,8 @@ class Builder:
                     if v:
                         ev.set()
                     v = ev
+                if isinstance(v, dict) and '__opq__' in v:
+                    v = self.build(v)  # an opaque-valued record field: the shared token
                 setattr(o, n, v)
             out[k] = o
         return out
